@@ -105,30 +105,23 @@ theorem layout_correct_aarch64_partial {isUnion pack : Bool} {ds : List Decl}
   rw [layout_target hn]
   cases isUnion with
   | false => exact layout_struct h
-  | true => exact layout_union h (fun d hd => unnamedNZ_of_unnamedBf (hn d hd))
+  | true => exact layout_union h
 
-/-- **union** (x86-64 / RISC-V): the full-strength statement … -/
-def layout_correct_union_full : Prop :=
-  ∀ (pack : Bool) (ds : List Decl), Wf true pack ds →
-    Layout.layout true pack ds = .ok (Abi.layout x86_64 true pack ds)
+/-- **union, x86-64 SysV / RISC-V LP64** (full strength): for every well-formed member list
+(unnamed bit-fields of any width included) `addmember` computes exactly the spec's union layout:
+`sizeof` = the largest member (a bit-field, named or not, needs `⌈w/8⌉` bytes) rounded up to the
+alignment, every member at offset 0.  (Before commit b861666 this failed for `unionWitness`: an
+unnamed bit-field of non-zero width never grew a union.) -/
+theorem layout_correct_union {pack : Bool} {ds : List Decl} (h : Wf true pack ds) :
+    Layout.layout true pack ds = .ok (Abi.layout x86_64 true pack ds) := layout_union h
 
-/-- `union { unsigned long : 40; unsigned char m : 1; }` -/
+theorem layout_correct_union_riscv64 {pack : Bool} {ds : List Decl} (h : Wf true pack ds) :
+    Layout.layout true pack ds = .ok (Abi.layout riscv64 true pack ds) := by
+  rw [layout_union h, layout_flag (T := riscv64) (T' := x86_64) rfl]
+
+/-- `union { unsigned long : 40; unsigned char m : 1; }` — the witness of the defect repaired by
+b861666 (cproc gave size 1, gcc and clang give 5); kept as a regression witness, see Non-vacuity -/
 def unionWitness : List Decl := [⟨intTy 8, false, 0, some 40⟩, ⟨intTy 1, true, 0, some 1⟩]
-
-/-- … is false: cproc gives `union { unsigned long : 40; unsigned char m : 1; }` size 1, gcc and
-clang give 5 (an unnamed bit-field never grows a union in `addmember`). -/
-theorem layout_correct_union_counterexample : ¬ layout_correct_union_full := by
-  intro h
-  have := h false unionWitness (by decide)
-  have h2 : (Layout.layout true false unionWitness).toOption.map (·.size) =
-      some (Abi.layout x86_64 true false unionWitness).size := by rw [this]; rfl
-  revert h2
-  decide
-
-/-- **union, partial**: holds when no unnamed bit-field has a non-zero width. -/
-theorem layout_correct_union_partial {pack : Bool} {ds : List Decl} (h : Wf true pack ds)
-    (hnz : ∀ d ∈ ds, d.unnamedNZ = false) :
-    Layout.layout true pack ds = .ok (Abi.layout x86_64 true pack ds) := layout_union h hnz
 
 /-- If the model accepts a member list (of parser-produced type descriptors), then none of the
 error conditions of `addmember`/`tagspec` holds. -/
@@ -140,7 +133,7 @@ theorem model_accepts_wf {isUnion pack : Bool} {ds : List Decl} (h : Wf isUnion 
     ∃ L, Layout.layout isUnion pack ds = .ok L := by
   cases isUnion with
   | false => exact ⟨_, layout_struct h⟩
-  | true => obtain ⟨L, hL, _⟩ := union_facts h; exact ⟨L, hL⟩
+  | true => exact ⟨_, layout_union h⟩
 
 /-! ## ABI-independent corollaries: every member list the model accepts (struct **and** union,
 unnamed bit-fields included, every target) -/
@@ -224,16 +217,16 @@ theorem union_members_at_zero {pack : Bool} {ds : List Decl} {L : Layout} (ht : 
   cases h
   exact fun m hm => (f1 m hm).2
 
-/-- What cproc computes for a union with unnamed bit-fields: the largest *named* member's type
-size rounded up (the defect of `layout_correct_union_counterexample`, stated positively). -/
-theorem union_size_model {pack : Bool} {ds : List Decl} {L : Layout} (ht : TypesWf ds)
+/-- `sizeof` of a union, stated on the model's result: the largest member — a non-bit-field needs
+`sizeof T` bytes, a bit-field (named **or unnamed**) `⌈w/8⌉` — rounded up to the alignment, which
+is the largest alignment contribution of a member. -/
+theorem union_size {pack : Bool} {ds : List Decl} {L : Layout} (ht : TypesWf ds)
     (h : Layout.layout true pack ds = .ok L) :
-    L.size = roundUp (unionTypeMax ds) L.align ∧ L.align = aggAlign x86_64 pack ds := by
+    L.size = roundUp (unionMax ds) L.align ∧ L.align = aggAlign x86_64 pack ds := by
   have hwf := layout_ok_wf ht h
-  obtain ⟨L', hL', _, f2, f3, _⟩ := union_facts hwf
-  rw [hL'] at h
+  rw [layout_union hwf] at h
   cases h
-  exact ⟨f3, f2⟩
+  exact ⟨rfl, rfl⟩
 
 /-! ## Enumerations -/
 
@@ -375,15 +368,28 @@ example : Wf false true exPacked ∧ TypesWf exPacked := by decide
 example : (Layout.layout false true exPacked).toOption.map (fun L => (L.size, L.align, L.flexible, L.members.map (·.offset))) =
     some (16, 8, true, [0, 2, 8, 12, 13]) := by decide
 
-/-- `union { int a; char b:3; long :0; double d; }` (unnamed zero-width only) -/
+/-- `union { int a; char b:3; long :0; double d; }` -/
 def exUnion : List Decl :=
   [⟨intTy 4, true, 0, none⟩, ⟨intTy 1, true, 0, some 3⟩, ⟨intTy 8, false, 0, some 0⟩, ⟨fltTy 8, true, 0, none⟩]
 
-example : Wf true false exUnion ∧ TypesWf exUnion ∧ ∀ d ∈ exUnion, d.unnamedNZ = false := by decide
+example : Wf true false exUnion ∧ TypesWf exUnion := by decide
+example : (Layout.layout true false exUnion).toOption.map (fun L => (L.size, L.align)) = some (8, 8) := by decide
+-- the former counterexample of the union statement: now size 5, alignment 1, on both sides
+example : Wf true false unionWitness ∧ TypesWf unionWitness ∧
+    (Layout.layout true false unionWitness).toOption.map (fun L => (L.size, L.align, L.members.length)) = some (5, 1, 1) ∧
+    (Abi.layout x86_64 true false unionWitness).size = 5 := by decide
+-- `union { unsigned : 17; char c; }` = 3/1, `union { int : 0; char c; }` = 1/1,
+-- `union { short : 9; short s; char : 3; }` = 2/2, `union { long : 64; char c; }` = 8/1
+example : [[⟨intTy 4, false, 0, some 17⟩, ⟨intTy 1, true, 0, none⟩],
+           [⟨intTy 4, false, 0, some 0⟩, ⟨intTy 1, true, 0, none⟩],
+           [⟨intTy 2, false, 0, some 9⟩, ⟨intTy 2, true, 0, none⟩, ⟨intTy 1, false, 0, some 3⟩],
+           [⟨intTy 8, false, 0, some 64⟩, ⟨intTy 1, true, 0, none⟩]].map
+      (fun ds => (decide (Wf true false ds), (Layout.layout true false ds).toOption.map (fun L => (L.size, L.align)))) =
+    [(true, some (3, 1)), (true, some (1, 1)), (true, some (2, 2)), (true, some (8, 1))] := by decide
 example : ∀ d ∈ exStruct.take 5, d.unnamedBf = false := by decide
 example : Wf false false (exStruct.take 5) := by decide
--- the witnesses of the two counterexamples are well-formed inputs
-example : Wf false false aarch64Witness ∧ Wf true false unionWitness := by decide
+-- the witness of the counterexample is a well-formed input
+example : Wf false false aarch64Witness := by decide
 example : Pow2 64 ∧ ¬ Pow2 48 := by decide
 example : Fits 32 5 8 ∧ ¬ Fits 32 28 8 ∧ bfPos 8 32 28 = 32 ∧ bfPos 36 32 20 = 36 := by decide
 
